@@ -61,6 +61,7 @@ type Profile struct {
 	SeqWeight       int
 	Quota           bool
 	SlowReads       bool          // some clients read responses slowly (response writes are seams)
+	WriteFaults     bool          // some clients go away while their answer is being written (a response Write fails, possibly part-way)
 	BackendAhead    time.Duration // the backend's clock runs ahead of the front ends' (clocks of two machines are never the same)
 	ReadOnlyReplica bool          // the last replica is configured read-only (it has no submission endpoints; reads must be served as anywhere else)
 	StoreIgnoresCtx bool          // external mode: the chain store finishes lookups whatever happens to the request's context
@@ -159,6 +160,7 @@ func (w *World) Init(s *kernel.Sim) {
 	p.Mapper = t.Chance(1, 3)
 	p.Quota = t.Chance(1, 3)
 	p.SlowReads = t.Chance(1, 3)
+	p.WriteFaults = t.Chance(1, 3)
 	p.ReadOnlyReplica = p.Replicas > 1 && t.Chance(1, 2)
 	p.BackendAhead = []time.Duration{0, 0, 0, 3 * time.Millisecond, 2 * time.Second, time.Hour}[t.Intn(6)]
 	p.MaxOps = t.Range(4, 28)
@@ -696,6 +698,9 @@ func (w *World) launch(op *Op) {
 	if w.prof.SlowReads && !w.auditing && op.Method == "GET" && op.ID%2 == 0 {
 		op.SlowWrite = true
 	}
+	if w.prof.WriteFaults && !w.auditing && op.ID%3 != 2 {
+		op.SlowWrite = true // submissions too: their answers can be cut off by a client that has gone
+	}
 	w.active++
 	w.started++
 	w.opSeq++
@@ -832,6 +837,15 @@ func (w *World) Options(s *kernel.Sim) []kernel.Option {
 					opts = append(opts, o)
 				}
 			}
+			if p.Name == "http.write" && w.prof.WriteFaults {
+				p := p
+				opts = append(opts, kernel.Option{Key: "fault " + p.Key, Weight: 4, Apply: func() {
+					d := kernel.Decision{Kind: "http.write-fail", N: int64(s.T.Intn(1 << 16))}
+					s.Logf("inject %s(%d) into %s", d.Kind, d.N, p.Key)
+					s.Fault(d.Kind)
+					s.Release(p, d)
+				}})
+			}
 		}
 		if w.started < w.prof.MaxOps && w.active < w.prof.Conc {
 			opts = append(opts, kernel.Option{Key: "start op", Weight: 8, Apply: func() {
@@ -897,6 +911,11 @@ func (w *World) AfterStep(s *kernel.Sim) {
 		s.Probe(fmt.Sprintf("status.%s.%dxx", op.Kind, op.Status/100))
 		if op.Panic != "" && !hasPrefix(op.Panic, "harness:") {
 			s.Violate("panic", panicSite(op.Panic), "op%03d %s %s?%s: handler panicked: %s", op.ID, op.Kind, op.Path, op.Query, op.Panic)
+			continue
+		}
+		if op.WriteFailed {
+			// the client never had this answer: there is nothing of it to judge (what the request did to the log stays)
+			s.Probe("client-gone.write-failed")
 			continue
 		}
 		if !w.sthHasSource(op) {
